@@ -9,6 +9,7 @@ import math
 from typing import Any
 
 TWO_PI = 2 * math.pi
+INTERP_KW_P = 0.0  # opt-in (set by a property module): share of interpolated waveforms built with interpolator options
 CLOCKS = [1, 1, 2, 4, 4, 5, 8]
 MIN_DURS = [1, 4, 16, 17]
 BWS = [None, None, 0.5, 1.3, 4.0, 8.0, 20.0, 40.0]
@@ -213,7 +214,12 @@ def gen_wf(rng, d: int, lo: float, hi: float, kinds: dict | None = None, nonneg=
     if k == "interp":
         n = rng.randint(2, 5)
         # PCHIP is monotone between points: samples stay inside [min,max] of the values
-        return {"k": "interp", "d": d, "values": [u() for _ in range(n)]}
+        w = {"k": "interp", "d": d, "values": [u() for _ in range(n)]}
+        if INTERP_KW_P and rng.random() < INTERP_KW_P:
+            # scipy's interp1d with an option (kinds that do not overshoot the values either)
+            w["interpolator"] = "interp1d"
+            w["kwargs"] = {"kind": pick(rng, ["next", "previous", "nearest", "linear"])}
+        return w
     if k == "composite":
         d1 = max(1, min(d - 1, rng.randint(1, max(1, d - 1))))
         sub = {"const": 3, "ramp": 2, "custom": 1}
@@ -310,6 +316,7 @@ class ProgGen:
         self.n_names = 0
         self.refs: dict[str, dict] = {}
         self.cpd_used = False
+        self.frac_delay_p = 0.0  # opt-in: share of delays asked for with a non-integral duration (e.g. 31.4 ns)
         self.odd_names: list[str] = []  # opt-in: e.g. ["", "0", "None"] used for the first declared channels
         self.cpd_given = 0.4  # how often disable_eom_mode states correct_phase_drift explicitly
         self.pending: list[dict] = []  # directed follow-ups (motifs) queued by update(); served before random ops
@@ -636,6 +643,8 @@ class ProgGen:
             op = {"op": k, "duration": gen_duration(r, self.chans[n]["spec"], self.big), "ch": n}
             if r.random() < 0.1:
                 op["duration"] = 0
+            elif self.frac_delay_p and r.random() < self.frac_delay_p:
+                op["duration"] = op["duration"] - pick(r, [0.6, 0.5, 0.1])  # castable to int, not integral
             if r.random() < 0.4:
                 op["at_rest"] = r.random() < 0.7
             return op
